@@ -1,38 +1,47 @@
 #!/usr/bin/env python3
-"""Warm the Go build cache: compile (not run) every test binary the checks use, plain and -race."""
-import json, os, subprocess, sys
+"""Warm the Go build cache: compile (not run) every test binary the checks use, plain and -race, with the plain
+overlay (instrumented copies only change one or two files of a package and rebuild quickly)."""
+import importlib.machinery
+import importlib.util
+import os
+import subprocess
+import sys
+
 VERIF = os.path.dirname(os.path.dirname(os.path.abspath(__file__)))
 sys.path.insert(0, os.path.join(VERIF, "lib"))
-sys.path.insert(0, VERIF)
-from props import PROPS
-import importlib.machinery, importlib.util
+from props import PROPS  # noqa: E402
+
 loader = importlib.machinery.SourceFileLoader("vcheck", os.path.join(VERIF, "vcheck"))
 spec = importlib.util.spec_from_loader("vcheck", loader)
-vc = importlib.util.module_from_spec(spec); loader.exec_module(vc)
+vc = importlib.util.module_from_spec(spec)
+loader.exec_module(vc)
+
 plain, race = set(), set()
 for pid, p in PROPS.items():
     for u in p["units"]:
         if u.get("kind") == "script":
             continue
-        (race if u.get("race") else plain).add((u["pkg"], tuple(u.get("instr", [])), pid))
-        if u.get("race") in ("thorough",):
-            plain.add((u["pkg"], tuple(u.get("instr", [])), pid))
-def build(items, israce):
-    done = set()
-    for pkg, instr, pid in sorted(items):
-        key = (pkg, instr)
-        if key in done:
-            continue
-        done.add(key)
-        try:
-            ov = vc.build_overlay(pid, list(instr))
-        except vc.Broken as e:
-            print("skip", pkg, e); continue
-        cmd = ["go", "test", "-tags", "verif", "-overlay", ov, "-vet=off", "-count=1", "-run", "^$"]
-        if israce:
-            cmd.append("-race")
-        cmd.append("./" + pkg if pkg != "." else ".")
-        print("warming", " ".join(cmd), flush=True)
-        subprocess.run(cmd, cwd=vc.REPO, env=vc.goenv())
+        if u.get("race"):
+            race.add(u["pkg"])
+            if u.get("race") == "thorough":
+                plain.add(u["pkg"])
+        else:
+            plain.add(u["pkg"])
+
+overlay = vc.build_overlay("warm", [])
+
+
+def build(pkgs, israce):
+    pk = sorted("./" + p if p != "." else "." for p in pkgs)
+    if not pk:
+        return
+    cmd = ["go", "test", "-tags", "verif", "-overlay", overlay, "-vet=off", "-count=1", "-run", "^$"]
+    if israce:
+        cmd.append("-race")
+    cmd += pk
+    print("warming:", " ".join(cmd), flush=True)
+    subprocess.run(cmd, cwd=vc.REPO, env=vc.goenv())
+
+
 build(plain, False)
 build(race, True)
